@@ -255,6 +255,8 @@ pub(crate) enum ExprErrorKind {
     UnassignedVariable(String),
     #[error("Division by zero")]
     DivisionByZero,
+    #[error("random({0}): the bound must be at least 2")]
+    EmptyRandomRange(i64),
 }
 
 /// Could not construct static iterator
